@@ -10,6 +10,7 @@ import Proofs.VdrExact
 import Proofs.VdrReclaim
 import Proofs.VdrExample
 import Proofs.VdrTmp
+import Martian.VdrFs
 
 namespace Props.C14
 open Martian.Vdr
@@ -35,17 +36,36 @@ theorem merge_preserves_totals (rs : List (Option KReport)) :
 theorem mergeEvents_preserves_total (l : List VEvent) : sumDelta (mergeEvents l) = sumDelta l :=
   sumDelta_mergeEvents l
 
-/-- **inside_pipestance.**  Under every interleaving and for every
-configuration, whatever is logged as removed was an entry of the fork's own
-files/ or tmp/ directories; so when those lie inside the pipestance
-directory, every removed path does. -/
-theorem inside_pipestance (c : Cfg) (s0 : St) (evs : List Ev) (root : Path) (fr : s0.removed = [])
-    (h : ∀ d ∈ s0.disk, pathIsInside d.path root = true) :
-    ∀ d ∈ (run c s0 evs).removed, pathIsInside d.path root = true := by
+/-- **inside_pipestance**, on the resolved location.  Under every
+interleaving and for every configuration, whatever is removed was an entry of
+the fork's own files/ or tmp/ directories, as enumerated by the walk.
+ASSUMED about that enumeration (this is what `util.Walk` not following links
+provides, repaired in this round; checked at run time by the sentinels behind
+links to outside directories and files below files/ and tmp/): the entries
+lie lexically inside the pipestance directory, and no symbolic link is a
+proper ancestor of an entry (`ParentsReal`: a link is an entry of its own and
+is never descended into).  Then every removed path still has only real
+directories as parent components — `os.RemoveAll` acts exactly where the path
+is written, removing a link as a link — and that place is inside the
+pipestance directory. -/
+theorem inside_pipestance (c : Cfg) (s0 : St) (evs : List Ev) (root : Path) (fs : List FsEnt)
+    (fr : s0.removed = []) (h : ∀ d ∈ s0.disk, pathIsInside d.path root = true)
+    (hreal : ∀ d ∈ s0.disk, ParentsReal fs d.path) :
+    ∀ d ∈ (run c s0 evs).removed, pathIsInside d.path root = true ∧ ParentsReal fs d.path := by
   intro d hd
   rcases (shr_run c s0 evs).removed d hd with h1 | h1
   · rw [fr] at h1; cases h1
-  · exact h d h1
+  · exact ⟨h d h1, hreal d h1⟩
+
+/-- Without `ParentsReal` the lexical statement is worthless — the defect of
+the walk that followed a link at its root: the entry `/ps/files/ref/x.txt`
+recorded below the link `/ps/files/ref -> /ext` is lexically inside `/ps`,
+but removing it acts on `/ext/x.txt`, outside. -/
+theorem followed_link_leaves_pipestance :
+    let e : FsEnt := ⟨"/ps/files/ref".toList, some "/ext".toList⟩
+    pathIsInside "/ps/files/ref/x.txt".toList "/ps".toList = true ∧
+    throughLink e "/ps/files/ref/x.txt".toList = "/ext/x.txt".toList ∧
+    pathIsInside (throughLink e "/ps/files/ref/x.txt".toList) "/ps".toList = false := by decide
 
 /-- … and nothing reappears: the disk only shrinks. -/
 theorem disk_only_shrinks (c : Cfg) (s0 : St) (evs : List Ev) :
@@ -57,27 +77,45 @@ entries removed and its size the sum of their sizes.  The proof maintains the
 one-to-one alignment between the file -> arguments cache and the entries
 below the files/ directories (`Aligned`), and that a directory entry lists at
 least the arguments of everything below it (`Mono`), through
-cacheParamFileMap / updateParamFileCache / vdrKillSome / temp cleaning. -/
-theorem report_exact (c : Cfg) (s0 : St) (evs : List Ev) (ok : CfgOK c s0) (sep : Sep s0.disk)
+cacheParamFileMap / updateParamFileCache / vdrKillSome / temp cleaning.
+`DiskWF`: temp entries are not below files/ entries, and symbolic links are
+not below another entry of the files/ directories (`LinksTop`; see
+`report_undercounts_nested_link`). -/
+theorem report_exact (c : Cfg) (s0 : St) (evs : List Ev) (ok : CfgOK c s0) (wf : DiskWF s0.disk)
     (fr : Fresh s0) (h0 : s0.report.count = 0 ∧ s0.report.size = 0) :
     (run c s0 evs).report.count = (run c s0 evs).removed.length ∧
     (run c s0 evs).report.size = sumSize (run c s0 evs).removed :=
-  ((XInv.init s0 fr h0).run ok sep evs).exact
+  ((XInv.init s0 fr h0).run ok wf evs).exact
+
+/-- Without `LinksTop` exactness fails in the code as in the model: a link
+below an otherwise unreferenced directory, pointing to a file an argument
+names, is kept alive by that argument (walked-side name expansion) while its
+directory is not; the directory is removed with the link in it, and the link
+is not counted. -/
+theorem report_undercounts_nested_link :
+    let c : Cfg := { volatile := true, strict := true, splits := false
+                     argNames := [("a", ["/p/f/t".toList])], argFiles := [("a", ["/p/f/t".toList])] }
+    let s : St := { fileArgs := [("a", [none])], postNodes := [],
+                    disk := [⟨"/p/f/t".toList, 1, .out, []⟩, ⟨"/p/f/sub".toList, 4096, .out, []⟩,
+                             ⟨"/p/f/sub/l".toList, 6, .out, ["/p/f/t".toList]⟩] }
+    (run c s [.cacheMap, .kill]).removed.length = 2 ∧ (run c s [.cacheMap, .kill]).report.count = 1 := by
+  decide
 
 /-- **reclaims_all_unreferenced.**  A volatile fork whose two bookkeeping maps
 are consistent (`BK`: a node holds an argument iff it is a post node listing
 it; no argument without holders): after ANY history in which every post node
 has completed, the complete-state pass (`Pipestance.VDRKill`) makes the fork
 final and every entry left below its files/ directories is referenced (equal,
-ancestor or descendant) by an argument the top level or a retain holds. -/
+ancestor or descendant; for a symbolic link also through what it points to)
+by an argument the top level or a retain holds. -/
 theorem reclaims_all_unreferenced (c : Cfg) (s0 : St) (evs : List Ev) (ok : CfgOK c s0)
-    (sep : Sep s0.disk) (fr : Fresh s0) (h0 : s0.report.count = 0 ∧ s0.report.size = 0)
+    (wf : DiskWF s0.disk) (fr : Fresh s0) (h0 : s0.report.count = 0 ∧ s0.report.size = 0)
     (hv : c.volatile = true) (bk : BK s0) (hf : s0.final = false)
     (hdone : ∀ p ∈ s0.postNodes, p.1 ∈ (run c s0 evs).doneNodes) :
     (run c s0 (evs ++ [.kill])).final = true ∧
     ∀ d ∈ (run c s0 (evs ++ [.kill])).disk, isTmp d.kind = false →
-      ∃ a, Holds s0 a none ∧ refs c a d.path = true := by
-  obtain ⟨x, r⟩ := joint_run ok sep hv (XInv.init s0 fr h0) (RInv.init c s0 fr bk hf) evs
+      ∃ a, Holds s0 a none ∧ refsN c a (d.path :: d.alts) = true := by
+  obtain ⟨x, r⟩ := joint_run ok wf hv (XInv.init s0 fr h0) (RInv.init c s0 fr bk hf) evs
   have hrun : run c s0 (evs ++ [.kill]) = kill c (run c s0 evs) := by
     unfold run; rw [List.foldl_append]; rfl
   rw [hrun]
@@ -86,7 +124,7 @@ theorem reclaims_all_unreferenced (c : Cfg) (s0 : St) (evs : List Ev) (ok : CfgO
     intro p hp
     obtain ⟨q, hq, e⟩ := r.sh.keys p hp
     rw [← e]; exact hdone q hq
-  exact ⟨hfin, (r.kill ok sep hv x).fin hfin⟩
+  exact ⟨hfin, (r.kill ok wf hv x).fin hfin⟩
 
 /-- **tmp_gone_when_final.**  For every configuration and interleaving: once
 the fork's final report is written, no entry of the split / chunk / join temp
@@ -110,7 +148,7 @@ theorem reclaim_needs_consistency :
     let c : Cfg := { volatile := true, strict := true, splits := false
                      argNames := [("a", ["/p/files/a".toList])], argFiles := [("a", ["/p/files/a".toList])] }
     let s : St := { fileArgs := [("a", [some "C"])], postNodes := [("C", [])],
-                    disk := [⟨"/p/files/a".toList, 1, .out⟩] }
+                    disk := [⟨"/p/files/a".toList, 1, .out, []⟩] }
     (run c s [.removeEmpty, .cacheMap, .nodeDone "C", .kill]).disk.map (·.path) = ["/p/files/a".toList] := by
   decide
 
@@ -129,22 +167,25 @@ and the report says 3 entries / 4103 bytes -/
 example :
     let c : Cfg := { volatile := false, strict := false, splits := true, argNames := [], argFiles := [] }
     let s : St := { fileArgs := [], postNodes := [],
-                    disk := [⟨"/p/c0/files/x".toList, 4, .chunk⟩, ⟨"/p/j/files/o".toList, 9, .out⟩,
-                             ⟨"/p/j/tmp/t".toList, 3, .tmp 2⟩, ⟨"/p/c0/tmp/d".toList, 4096, .tmp 1⟩] }
+                    disk := [⟨"/p/c0/files/x".toList, 4, .chunk, []⟩, ⟨"/p/j/files/o".toList, 9, .out, []⟩,
+                             ⟨"/p/j/tmp/t".toList, 3, .tmp 2, []⟩, ⟨"/p/c0/tmp/d".toList, 4096, .tmp 1, []⟩] }
     ((run c s [.early 2, .kill]).disk.map (·.path) = ["/p/j/files/o".toList]) ∧
     (run c s [.early 2, .kill]).report.count = 3 ∧ (run c s [.early 2, .kill]).report.size = 4103 := by
   decide
 
 /-- the hypotheses of `report_exact` / `reclaims_all_unreferenced` are satisfiable
 (the fork of Props/C04.lean's example) and the conclusions are not vacuous -/
-example : Sep exSt.disk ∧ BK exSt ∧ exSt.final = false ∧
+example : DiskWF exSt.disk ∧ BK exSt ∧ exSt.final = false ∧
     (run exCfg exSt [.removeEmpty, .cacheMap, .kill, .nodeDone "C", .kill]).report.count = 4 ∧
     (run exCfg exSt [.removeEmpty, .cacheMap, .kill, .nodeDone "C", .kill]).removed.length = 4 := by
-  refine ⟨?_, ⟨?_, ?_⟩, rfl, by decide, by decide⟩
+  refine ⟨⟨?_, ?_⟩, ⟨?_, ?_⟩, rfl, by decide, by decide⟩
   · intro d hd ht d' hd' ht'
     simp [exSt] at hd hd'
     rcases hd with rfl | rfl | rfl | rfl | rfl <;> simp [isTmp] at ht
     rcases hd' with rfl | rfl | rfl | rfl | rfl <;> first | decide | (simp [isTmp] at ht')
+  · intro d hd hal
+    simp [exSt] at hd
+    rcases hd with rfl | rfl | rfl | rfl | rfl <;> simp at hal
   · intro a hs hm n hn
     simp [exSt] at hm
     rcases hm with ⟨rfl, rfl⟩ | ⟨rfl, rfl⟩
